@@ -101,6 +101,11 @@ def cells(tier):
         for op in ('roStoryInsert', 'roStoryReplace', 'EAStoryReplace', 'roItemInsert', 'roItemReplace',
                    'EAItemReplace', 'EAItemInsert', 'EAStoryInsert', 'roStoryAppend'):
             out.append(pcell(op, 2, 3, T=T))
+    # the same from a state reached through a roReplace
+    for op in ('roStoryInsert', 'roStoryReplace', 'EAStoryReplace', 'roItemInsert', 'roItemReplace', 'EAItemReplace',
+               'EAItemInsert', 'EAStoryInsert', 'roStoryAppend'):
+        out.append(pcell(op, 2, 2, T=T, prehist=True))
+    out.append(scell(3, 'pi', 1, 1, T=T, prehist=True))
     out.append(pcell('roStoryInsert', 3, 1, gap=0, trail=1, T=T))
     out.append(pcell('roStoryReplace', 3, 2, gap=1, trail=1, T=T))
     for body in ('', 'p', 'i', 'pi', 'ip', 'pipo', 'oipi', 'iii', 'ppp'):
@@ -111,6 +116,8 @@ def cells(tier):
     for carry in META_CARRIES:
         out.append(mcell(PID, 'payload', carry, T=T))
     out.append(mcell(PID, 'payload', ['metaB'], T=T, n_meta=1))
+    out.append(mcell(PID, 'payload', ['metaX'], T=T, story_schema='X'))
+    out.append(mcell(PID, 'payload', ['metaA'], T=T, story_schema='A', meta_split=True))
     out.append(mcell(PID, 'payload', ['metaA'], T=T, n_meta=0))
     out.append(mcell(PID, 'payload', ['metaB', 'roEdStart'], T=T, meta_split=True))
     for N, k in ((2, 1), (2, 2), (3, 0), (1, 3)):
